@@ -85,6 +85,7 @@ class World:
         self._derived = None
         self._impl = None
         self._pairs = None
+        self._fn_generics = {}
         self._src = {}
         self._defaults = {}
         self.counters = collections.Counter()
@@ -180,6 +181,42 @@ class World:
         for formal, actual in zip(self_args, call_args):
             if formal in params and actual not in params and not re.fullmatch(r"[A-Z]\w{0,2}", actual):
                 out[formal] = actual
+        return out
+
+    def fn_generics(self, fn_name):
+        """type-parameter names of a crate fn item, read from the source (`fn name<A, B: Bound>`); [] when not generic.
+        The file comes from the impl span in the item name; lifetimes and const parameters are skipped."""
+        base = re.sub(r"::\{closure#\d+\}.*$", "", fn_name)
+        c = self._fn_generics.get(base)
+        if c is not None: return c
+        short = base.rsplit("::", 1)[-1]
+        files = []
+        mm = re.findall(r"<impl at ([^:>]+):\d+:\d+: \d+:\d+>", base)
+        if mm: files = [mm[-1]]
+        else:
+            root = os.path.join(self.srcroot, "quil-rs/src")
+            for dp, _, fs in os.walk(root):
+                files += [os.path.relpath(os.path.join(dp, f), self.srcroot) for f in fs if f.endswith(".rs")]
+        hits = []
+        for f in files:
+            try: text = "\n".join(self.src_lines(f))
+            except Exception: continue
+            for m0 in re.finditer(r"\bfn\s+" + re.escape(short) + r"\s*<", text):
+                i, d = m0.end(), 1
+                j = i
+                while j < len(text) and d:
+                    ch = text[j]
+                    if ch == "<": d += 1
+                    elif ch == ">" and text[j - 1] not in "-=": d -= 1
+                    j += 1
+                names = []
+                for part in split_top(text[i:j - 1]):
+                    part = part.strip()
+                    if not part or part.startswith("'") or part.startswith("const "): continue
+                    names.append(re.match(r"\w+", part).group(0))
+                hits.append(names)
+        out = hits[0] if len(hits) == 1 or (hits and all(h == hits[0] for h in hits)) else []
+        self._fn_generics[base] = out
         return out
 
     def pick_impl(self, cands, trait_text):
